@@ -74,6 +74,33 @@ def early_cases(tier: str):
                             yield dict(n=n, es=es, fail={f: "V"}, res=res, mc=mc, is_async=is_async, noloc=False, batch=False, ties=0, early=1)
 
 
+def attr_cases(tier: str):
+    """failures next to sequential candidates and priorities; failures with profiling switched on"""
+    q = tier == "quick"
+    for n in (2, 3, 4):
+        for es in shapes(n):
+            if len(es) > (1 if n >= 3 else 1):
+                continue
+            for f in range(n):
+                for s_ in range(n):
+                    if s_ == f and n > 2:
+                        continue
+                    for res in itertools.product("ta", repeat=n):
+                        res = "".join(res)
+                        if n == 4 and (q and res.count("a") != 1):
+                            continue
+                        for prio in (tuple(range(n - 1, -1, -1)), tuple(range(n))):
+                            for is_async in (False, True):
+                                yield dict(n=n, es=es, fail={f: "V"}, res=res, seq=tuple(j == s_ for j in range(n)), prio=prio, mc=3,
+                                           is_async=is_async, noloc=False, batch=False, ties=0)
+    for n in (1, 2, 3):
+        for es in shapes(n):
+            for f in range(n):
+                for res in ("t" * n, "a" * n, "m" * n, ("mt" * n)[:n]):
+                    for is_async in (False, True):
+                        yield dict(n=n, es=es, fail={f: "V"}, res=res, mc=2, is_async=is_async, noloc=False, batch=False, ties=0, profile=True)
+
+
 def nontrivial(view):
     # a sibling (neither ancestor nor descendant of the failing node) was in flight or ready when the failure was observed
     from ..monitors import failure_observed_at
@@ -88,7 +115,7 @@ def nontrivial(view):
 
 def run_shard(tier, k, n, acc):
     from ..spaces import cross_families, foreign_quick_cases
-    its = [cases(tier), early_cases(tier), cross_families(tier)]
+    its = [cases(tier), early_cases(tier), attr_cases(tier), cross_families(tier)]
     if tier != "quick":
         its.append(foreign_quick_cases("c14"))
     for c in shard_iter(itertools.chain(*its), k, n, acc):
